@@ -486,7 +486,7 @@ def extract_some(rng, spec, p=.3, log=None, size_on_elem_ref=False):
     spec.types.extend(new)
 
 
-def alias_some(rng, spec, p=.3, log=None, recursive_ok=False):
+def alias_some(rng, spec, p=.3, log=None, recursive_ok=True):
     """Replace a reference to N by a reference to a new alias  A ::= N  (so that types are reached
     through chains of references; after splitting into modules only the first name of a chain is
     imported by the referencing module).  References that close a cycle are left alone unless
